@@ -1685,6 +1685,11 @@ class Engine:
             niter = it.length
             arr0 = it.arr
             elem = lambda i: z3.Select(arr0, i)
+        elif isinstance(it, VRow):
+            # a row of a list of lists (e.g. an adjacency list): iterated as it is at loop entry
+            niter = it.length
+            row0 = it.arr
+            elem = lambda i: z3.Select(row0, i)
         elif isinstance(it, VStrs):
             niter = specs.sslen(it.term)
             st0 = it.term
@@ -1804,6 +1809,23 @@ class Engine:
             v = self.eval(y.value, env)
             if c.get('yield_acc') and isinstance(v, VSeq) and v.term.sort() == specs.CSeq:
                 env['_ys'] = VSeq(specs.capp(env['_ys'].term, v.term))
+                return
+            k = self.yield_sites(fr).get(id(y))
+            specs_y = c.get('yields_at', {}).get(k, c.get('yields'))
+            if isinstance(v, VPairs) and specs_y is not None:
+                # `yield from <sequence of pairs>`: every pair of the sequence is yielded, in order; the clauses of the site are
+                # checked for a generic position _yt (and `_ylen` values are yielded here)
+                t = self.fresh('yield_pos')
+                saved = len(self.pc)
+                self.pc.append(z3.And(t >= 0, t < toz(v.length)))
+                e2 = dict(env)
+                e2['yielded'] = VTuple([sel(v.first, t), sel(v.second, t)], 'tuple')
+                e2['_yt'], e2['_ylen'] = t, toz(v.length)
+                try:
+                    for tx in specs_y:
+                        self.oblige('yield', tx, self.spec_eval(tx, e2), y.lineno)
+                finally:
+                    del self.pc[saved:]
                 return
             raise Unsupported('yield from')
         v = self.eval(y.value, env)
@@ -2475,6 +2497,20 @@ class Engine:
                 if table.arr.sort().range() == specs.CSeq:
                     return VDom(table.arr, toz(table.length), it.term)
                 return VSeq(specs.imapsub(it.term, table.arr, toz(table.length)))
+        if isinstance(it, VArr) and it.arr.sort().range() == z3.IntSort() and isinstance(g.target, ast.Name) and isinstance(e.elt, ast.Tuple) \
+                and len(e.elt.elts) == 2 and not getattr(self, 'in_spec', False):
+            # ((u, v) for v in <int list>): a sequence of pairs, one per element
+            t = self.fresh('pair_' + g.target.id)
+            e2 = dict(env)
+            e2[g.target.id] = z3.Select(it.arr, t)
+            self.generic_elem = getattr(self, 'generic_elem', 0) + 1
+            try:
+                a, b = self.eval(e.elt.elts[0], e2), self.eval(e.elt.elts[1], e2)
+            finally:
+                self.generic_elem -= 1
+            if all(isinstance(x, int) or (is_z3(x) and z3.is_int(x)) for x in (a, b)):
+                return VPairs(toz(it.length), z3.Lambda([t], toz(a)), z3.Lambda([t], toz(b)))
+            raise Unsupported('comprehension of pairs with non-int components')
         if isinstance(it, VSeq) and it.sortname == 'ISeq' and isinstance(g.target, ast.Name) and isinstance(e.elt, ast.Tuple) \
                 and len(e.elt.elts) == 2 and not getattr(self, 'in_spec', False) \
                 and ast.unparse(e.elt) != '(1, {})'.format(g.target.id):          # (1, lit): unit terms of a constraint, see below
